@@ -81,7 +81,11 @@ func (r *Recorder) Note(format string, a ...interface{}) {
 }
 
 // Skipped records a sub-check that could not be run (never a violation).
-func (r *Recorder) Skipped(what string) { r.mu.Lock(); r.skipped = append(r.skipped, what); r.mu.Unlock() }
+func (r *Recorder) Skipped(what string) {
+	r.mu.Lock()
+	r.skipped = append(r.skipped, what)
+	r.mu.Unlock()
+}
 
 // Hash is a helper: FNV-1a over the given byte strings with length framing.
 func Hash(parts ...[]byte) uint64 {
